@@ -16,10 +16,11 @@ LET = {
     'G': {'fn': 'out_hdl', 'a': ['x1'], 'ret': 'v1'},
     'S': {'fn': 'in_static', 'a': ['x2'], 'ret': 'vobj'},
     'K': {'fn': 'out_a', 'a': ['x1'], 'k': {'z': 'xl', 'y': 'xo1'}, 'ret': 'vdct'},
+    'W': {'do': 'thr', 'steps': [{'fn': 'in_b', 'a': ['x2'], 'ret': 'vdct'}]},   # an interception made on a joined worker thread of the operation
     'N': {'fn': 'in_b', 'a': ['x2'], 'ret': 'vs', 'pre': [{'fn': 'in_a', 'a': ['x1'], 'ret': 'vlst'}, {'fn': 'out_a', 'a': ['x1'], 'ret': 'v0'}]},
 }
 STEP_FAULTS = ['key', 'handler', 'unser']
-STEP_BODY = ['exc', 'intr']
+STEP_BODY = ['exc', 'intr', 'exc-lib']
 STEP_PRE = ['pre-discard', 'pre-force']
 GAP = ['gap-discard', 'gap-force', 'gap-raise', 'gap-intr']
 ENDS = ['ret', 'raise:E1', 'raise:Unser', 'intr']
@@ -35,12 +36,18 @@ GLOBS = {
 CLEAN2 = {'steps': [{'fn': 'in_a', 'a': ['x1'], 'ret': 'vlst'}, {'fn': 'out_a', 'a': ['x1'], 'ret': 'v1'}, {'fn': 'out_a', 'a': ['x2'], 'ret': 'v0'}]}
 
 
+def _call_of(step):
+    return step['steps'][0] if step.get('do') == 'thr' else step
+
+
 def applicable(letter, kind):
-    fn = LET[letter]['fn']
+    fn = _call_of(LET[letter])['fn']
     if kind == 'key':
         return fn in ('in_a', 'in_b', 'in_static')
     if kind == 'handler':
         return fn in ('in_hdl', 'out_hdl')
+    if kind == 'intr' and LET[letter].get('do') == 'thr':
+        return False   # a BaseException that only kills a worker thread is absorbed there: outside the quantifier (like a caught one)
     return True
 
 
@@ -71,21 +78,22 @@ def compatible(m1, m2):
 def build(case):
     steps = [copy.deepcopy(LET[l]) for l in case['base']]
     for i, st in enumerate(steps):  # distinct arguments per position: an input is a function of alias + captured arguments
-        st['a'] = [['x1', 'x2', 'xs', 'xt'][i]]
+        _call_of(st)['a'] = [['x1', 'x2', 'xs', 'xt'][i]]
     gaps = {}
     for kind, pos in case['mods']:
+        tgt = _call_of(steps[pos]) if pos < len(steps) and kind in STEP_FAULTS + STEP_BODY + STEP_PRE else None
         if kind in STEP_FAULTS:
-            steps[pos]['fault'] = kind
-        elif kind == 'exc':
-            steps[pos]['exc'] = 'E1'
-            steps[pos].pop('ret', None)
+            tgt['fault'] = kind
+        elif kind in ('exc', 'exc-lib'):
+            tgt['exc'] = 'E1' if kind == 'exc' else 'RKE'
+            tgt.pop('ret', None)
         elif kind == 'intr':
-            steps[pos]['intr'] = True
-            steps[pos].pop('ret', None)
+            tgt['intr'] = True
+            tgt.pop('ret', None)
         elif kind == 'pre-discard':
-            steps[pos].setdefault('pre', []).insert(0, {'do': 'discard'})
+            tgt.setdefault('pre', []).insert(0, {'do': 'discard'})
         elif kind == 'pre-force':
-            steps[pos].setdefault('pre', []).insert(0, {'do': 'force'})
+            tgt.setdefault('pre', []).insert(0, {'do': 'force'})
         else:
             gaps.setdefault(pos, []).append({'gap-discard': {'do': 'discard'}, 'gap-force': {'do': 'force'}, 'gap-raise': {'do': 'raise', 'exc': 'E2'},
                                              'gap-intr': {'do': 'intr'}, 'gap-disable': {'do': 'disable'}}[kind])
@@ -104,12 +112,17 @@ def build(case):
     return prog, g
 
 
-def gen(tier, letters='AHOGSN', pair_ends=('ret', 'raise:E1'), extra_gap=()):
+QUICK_PAIRS = ['AO', 'OA', 'AH', 'HG', 'GO', 'OO', 'SO', 'NA', 'AN', 'WA', 'AW', 'WO', 'OW', 'HH', 'OG', 'SN', 'WW', 'AS', 'NO', 'KA', 'OK', 'WK']
+
+
+def gen(tier, letters='AHOGSNW', pair_ends=('ret', 'raise:E1'), extra_gap=()):
     maxlen = 2 if tier == 'quick' else 3
     letters = list(letters)
     for n in range(1, maxlen + 1):
         for base in itertools.product(letters, repeat=n):
             base = list(base)
+            if tier == 'quick' and n == 2 and ''.join(base) not in QUICK_PAIRS:
+                continue   # quick: a covering set of 2-letter bases (every letter in both positions); thorough: all of them
             if tier == 'thorough' and n == 3 and len(set(base)) == 3 and base != sorted(base):
                 # three different letters: order of independent letters only permutes positions; keep sorted + all with repeats
                 continue
